@@ -392,6 +392,47 @@ def rule_callbacks(ctx, repo):
               "time-series applier no longer guards status/mode/exact time stamp", f.W())
 
 
+def rule_exact(ctx, repo):
+    """Consumers compare the clock with stored times by exact equality (TimerParam.is_time: np.equal(dae_t, v); TDS.run: dae.t == tf).
+    fl(t + fl(target - t)) == target does not hold in IEEE arithmetic in general, so wherever calc_h cuts the step at a target
+    (`self.h = <target> - t`) the target itself must be recorded, and the clock must be set FROM that record when it is advanced."""
+    from rules import tdscommon
+    f = F.method(repo, "TDS", "calc_h", TDS)
+    cuts = [st for st in walk_noscope(f.fn) if isinstance(st, ast.Assign) and dotted(st.targets[0]) == "self.h" and
+            any(isinstance(x, ast.BinOp) and isinstance(x.op, ast.Sub) and (dotted(x.right) or "").endswith("dae.t") for x in ast.walk(st.value))]
+    if not cuts:
+        ctx.undecided("C06.exact", "TDS.calc_h/cuts", "no `self.h = <target> - t` definition found", f.W())
+        return
+    helpers = tdscommon.advance_helpers(repo)
+    recorded = set()
+    for h_ in helpers.values():
+        recorded.update(h_["targets"])
+    for k, st in enumerate(cuts):
+        subs = [x for x in ast.walk(st.value) if isinstance(x, ast.BinOp) and isinstance(x.op, ast.Sub) and (dotted(x.right) or "").endswith("dae.t")]
+        tgt = src(subs[0].left)
+        # csv replay is exempt from nothing: its time stamps are compared too
+        rec = [s2 for s2 in walk_noscope(f.fn) if isinstance(s2, ast.Assign) and src(s2.value) == tgt and dotted(s2.targets[0]) != "self.h"
+               and (dotted(s2.targets[0]) or "").startswith("self.")]
+        plain = isinstance(st.value, ast.BinOp) and st.value is subs[0]
+        ctx.check(bool(rec), "C06.exact", "TDS.calc_h/cut#%d(%s)" % (k, tgt[:40]), "the cut time is recorded next to h = target - t",
+                  "`%s` cuts the step at `%s` but the target is not recorded (%s): the clock can only be advanced by t += h, which may miss the "
+                  "target by one ulp -- the event's `==` test fails or the run ends at tf + 1 ulp and is reported as failed" % (
+                      src(st), tgt, "no `self.<attr> = %s`" % tgt), f.W(st))
+    # every clock advance goes through a helper that copies the record
+    n_adv = 0
+    for mname in ("run", "init_resume"):
+        g_ = F.method(repo, "TDS", mname, TDS)
+        for n in tdscommon.clock_nodes(repo, g_):
+            n_adv += 1
+            a = g_.g.data(n)["ast"]
+            via = None
+            if isinstance(a, ast.Expr) and isinstance(a.value, ast.Call):
+                via = helpers.get((dotted(a.value.func) or "")[5:])
+            ctx.check(bool(via and via["exact"]), "C06.exact", "TDS.%s/advance@%d" % (mname, g_.g.line(n)), "clock set from the recorded cut time when there is one",
+                      "`%s` advances the clock arithmetically only (t += h)" % src(a), g_.W(n))
+    ctx.count("clock_advance_sites", n_adv)
+
+
 def run(ctx):
     ctx.rule("C06.comparator", "event-time tests use exact-equality idioms only (positive control: np.isclose default must fire)", 2)
     ctx.rule("C06.advance", "every advance of the event pointer is dominated by the dispatch of that event; dispatch followed by "
@@ -402,18 +443,21 @@ def run(ctx):
              "(not on resume; in-loop only under refresh_event); dispatch plumbing", 12)
     ctx.rule("C06.callback", "all functions stored in a TimerParam.callback slot (+ TimeSeries.apply_exact): effects execute iff "
              "is_time[i] and u[i] (4 valuations), device addressed with the loop index", 5)
-    ctx.rule("C06.clip", "no step crosses an event or the end time (C04 step-size rules)", 4)
-    ctx.assume("floating-point exactness of t + (ts - t) == ts and behaviour for arbitrary schedules are runtime facts: declined")
+    ctx.rule("C06.clip", "no step crosses an event or the end time (C04 step-size rules)", 2)
+    ctx.rule("C06.exact", "exactness typing: times that are later compared with == (event times, tf) are COPIED into the clock, not "
+             "re-computed as t + (target - t)", 4)
+    ctx.assume("behaviour for arbitrary schedules is a runtime fact: declined")
     repo = Repo()
     rule_comparator(ctx, repo)
     rule_advance_dispatch(ctx, repo)
     rule_initial_time(ctx, repo)
     rule_schedule(ctx, repo)
     rule_callbacks(ctx, repo)
+    rule_exact(ctx, repo)
     before = len(ctx.results)
     c04.rule_stepsize(ctx, repo)
     c04.rule_run_loop(ctx, repo)
-    keep = ("TDS.calc_h/clip-tf", "TDS.calc_h/clip-switch", "TDS.calc_h/no-other-writes", "TDS.run/accept-order")
+    keep = ("TDS.calc_h/clip", "TDS.run/accept-order")
     new = []
     for r in ctx.results[before:]:
         if r["construct"] in keep:
